@@ -577,4 +577,31 @@ class Dec64ExactBuf:
         return None
 
 
+class RfcStoreOracle:
+    """oracle: the verdict and canonical string of lyd_value_validate()/lyd_new_term() on integer, decimal64 and
+    boolean leaves against the strict RFC 7950 reading written in Python above (independent of the Coq model).
+    The documented white-space tolerance is not reported; every other departure is, under the tags listed in the
+    module docstring (None for an unexpected one)."""
+    name = "types-rfc"
+    driver = "t_types"
+
+    def gen(self, rng, tier, scale=1.0):
+        L = []
+        for c in (IntStore(), Dec64Store(), Dec64Next(), BoolStore()):
+            L += c.gen(rng, tier, 0.3 * scale)
+        return L
+
+    def judge(self, line, out):
+        f = line.split("\t")
+        tok = out.split(" ")
+        if len(tok) > 1:
+            return None, "entry points disagree on %r (%s): %s" % (unhex(f[2]), f[1], out)
+        if not re.fullmatch(r"E|-|([0-9a-f]{2})+", tok[0]):
+            return None, "implementation failed on %r (%s): %s" % (unhex(f[2]), f[1], out)
+        r = classify(f[1], unhex(f[2]), tok[0], unhex(f[3]) if len(f) > 3 else b"")
+        if r and r[0] != "ws-tolerated":
+            return r
+        return None
+
+
 ALL = [IntStore, Dec64Store, Dec64Next, BoolStore, ValCmp, ValSort, RangeCheck]
